@@ -139,8 +139,10 @@ class TimeTriggerDecorator(TriggerDecorator):
                 await asyncio.sleep(timeout)
                 _LOGGER.debug("%s finish sleeping for %s seconds", self, timeout)
                 while True:
+                    # after waking up, compare with the local trigger time itself; time_next_adj only
+                    # differs from it when now and time_next bracketed a daylight-saving change
                     now = dt_now()
-                    timeout = (time_next_adj - now).total_seconds()
+                    timeout = (time_next - now).total_seconds()
                     if timeout <= 1e-6:
                         break
                     _LOGGER.debug("%s additional sleep for %s seconds", self, timeout)
